@@ -281,6 +281,8 @@ func (e *Enc) appendBuiltin(x *ssa.Call, cc *callCtx) {
 					e.r.assume(fmt.Sprintf("(forall ((k!a Int)) (! (= (select %s k!a) (ite (< k!a %s) (select (%s_arr %s) k!a) (select (%s_arr %s) (+ k!a 1)))) :pattern ((select %s k!a))))",
 						arr, i, srt, old, srt, old, arr))
 					e.vals[x] = e.r.def(e.name(x), srt, fmt.Sprintf("(mk_%s %s (- (%s_len %s) 1) false)", srt, arr, srt, old))
+					he := g.HasElem(srt)
+					e.r.assume(fmt.Sprintf("(forall ((v!m %s)) (! (=> (%s %s v!m) (%s %s v!m)) :pattern ((%s %s v!m))))", es, he, e.vals[x], he, old, he, e.vals[x]))
 					return
 				}
 			}
@@ -310,12 +312,24 @@ func (e *Enc) appendBuiltin(x *ssa.Call, cc *callCtx) {
 			nilv = fmt.Sprintf("(%s_nil %s)", s, a)
 		}
 		e.vals[x] = e.r.def(e.name(x), s, fmt.Sprintf("(mk_%s %s (+ %s %d) %s)", s, arr, al, n, nilv))
+		// membership lemma (follows from the definition of has_elem): members of the result = members of a, plus the new elements
+		he := g.HasElem(s)
+		var eqs []string
+		eqs = append(eqs, fmt.Sprintf("(%s %s v!m)", he, a))
+		for i := 0; i < n; i++ {
+			eqs = append(eqs, fmt.Sprintf("(= v!m %s)", elems[i]))
+		}
+		e.r.assume(fmt.Sprintf("(forall ((v!m %s)) (! (= (%s %s v!m) %s) :pattern ((%s %s v!m)) :pattern ((%s %s v!m))))", es, he, e.vals[x], orTerms(eqs), he, e.vals[x], he, a))
 		return
 	}
 	arr := e.r.decl(e.r.fresh(e.name(x)+"_arr"), fmt.Sprintf("(Array Int %s)", es))
 	e.r.assume(fmt.Sprintf("(forall ((k!a Int)) (! (= (select %s k!a) (ite (< k!a %s) (select (%s_arr %s) k!a) (select (%s_arr %s) (- k!a %s)))) :pattern ((select %s k!a))))",
 		arr, al, s, a, s, b, al, arr))
 	e.vals[x] = e.r.def(e.name(x), s, fmt.Sprintf("(mk_%s %s (+ %s %s) (and (%s_nil %s) (= %s 0)))", s, arr, al, bl, s, a, bl))
+	{
+		he := g.HasElem(s)
+		e.r.assume(fmt.Sprintf("(forall ((v!m %s)) (! (= (%s %s v!m) (or (%s %s v!m) (%s %s v!m))) :pattern ((%s %s v!m))))", es, he, e.vals[x], he, a, he, b, he, e.vals[x]))
+	}
 }
 
 // literalSlice recognises `slice t[:]` of a freshly allocated array whose elements were stored one by one (varargs / composite literal).
@@ -690,8 +704,10 @@ func (e *Enc) callSiteAsserts(x *ssa.Call, cc *callCtx) {
 	} else {
 		callee = cc.c.StaticCallee()
 	}
-	name := cc.c.Method.Name()
-	if !cc.c.IsInvoke() {
+	name := ""
+	if cc.c.IsInvoke() {
+		name = cc.c.Method.Name()
+	} else {
 		if callee == nil {
 			return
 		}
